@@ -294,7 +294,7 @@ def maxcolor_graph(work, font_bytes, flags, name):
             declared = e["ins"] + e["implicit"] + e["order_only"]
             rd = [norm(x) for x in reads.get(e["out"], [])]
             h = intern(e["cmd"])
-            edges.append({"out": e["out"], "ins": declared, "reads": [x for x in rd if x in files], "h": h, "sem": h, "rule": e["rule"]})
+            edges.append({"out": e["out"], "ins": declared, "trig": e["ins"] + e["implicit"], "reads": [x for x in rd if x in files], "h": h, "sem": h, "rule": e["rule"]})
         else:
             prim = primary.get((e["rule"], tuple(e["ins"]), tuple(e["implicit"])))
             if prim is None:
